@@ -22,6 +22,9 @@ NOTES={('C14','c'):'Not detected, by design: whether the arguments of a wrong-ar
        ('C01','u'):'Not detected, by design: the change only affects declarations with a line break between ধরি and the first name; declarations that span lines outside an array / object literal initialiser are outside the domain of C01, C08 and C18 (the implementation has an undocumented one-line rule there).',
        ('C13','u'):'Not detected, and not detectable by running programs of the language as it is: the change adds a new built-in (a sum over an object\'s values in map order). On the unchanged tree that name is simply undefined — a deterministic error — so no workload has a reason to call it.',
        ('C12','w'):'Not detected, by design: the change makes any two objects that are both empty compare equal with ==. No property says what == yields for two distinct containers (C02 pins reflexivity, symmetry, totality and cross-type inequality only; C12 never mentions ==), so the model refuses such comparisons; everything C12 does pin — sharing, reads, writes, deletes, listings, printing — is untouched by the change.',
+       ('C16','z'):'Not detected, by design: the refactoring (one shared comma-list helper in the parser) stops accepting a comma after the last property of an object literal. As recorded for C19-u, the grammar has no such rule and C08 / C12 leave it open, so rejecting it is as conforming as accepting it; texts whose only departure from the grammar is that comma are out of domain.',
+       ('C06','y'):'Not detected, by design: the same refactoring as C16-z (a shared comma-list helper that no longer accepts a comma after the last property of an object literal); see there and C19-u.',
+       ('C19','z'):'Not detected, by design: the scope-storage rewrite keeps the FIRST definition when a function is declared a second time in one scope (or after a variable of that name). What a second function declaration of an already bound name means is pinned by no property (C03 speaks of ধরি redeclarations only) and the model has refused such programs from the start; variable redeclaration, shadowing, closures and every lookup are unchanged by the rewrite.',
        ('C13','c'):'With this change the repository\'s own flaky (non-baseline) parser test Object_Literal fails intermittently; the 157 stable tests pass.'}
 for (p,x),m in res.items():
     d=f'{V}/seeded/{p}-{x}'
@@ -31,7 +34,7 @@ for (p,x),m in res.items():
     meta['confirmed']={'applies_and_compiles':True,'repo_test_failures_with_change':int(m.group(5)),'demo_exit_without_change':int(m.group(3)),'demo_exit_with_change':int(m.group(4)),
       'how':f'tools/mutcheck.sh {p} {x} — fresh scratch worktree of /repo HEAD under /tmp, demo.sh run before and after `git apply patch.diff`, `go build ./...`, `go test -vet=off -count=1 ./...`, then ./vcheck with VERIF_REPO pointing at the worktree; worktree removed afterwards'}
     meta['checks_run']={c:{'quick_exit':int(rc),'first_signature':sig} for c,rc,sig in re.findall(r'(C\d+)=rc(\d)\[([^\]]*)\]',m.group(6))}
-    meta['source']='independent sub-agent given only the property text and a scratch worktree (round %d)'%({'a':1,'b':1,'c':2,'d':2,'e':3,'f':3,'g':4,'h':4,'i':5,'j':5,'k':6,'l':6,'m':7,'n':7,'o':8,'p':8,'q':9,'r':9,'s':10,'t':10,'u':11,'v':11,'w':12,'x':12}.get(x,0))
+    meta['source']='independent sub-agent given only the property text and a scratch worktree (round %d)'%({'a':1,'b':1,'c':2,'d':2,'e':3,'f':3,'g':4,'h':4,'i':5,'j':5,'k':6,'l':6,'m':7,'n':7,'o':8,'p':8,'q':9,'r':9,'s':10,'t':10,'u':11,'v':11,'w':12,'x':12,'y':13,'z':13}.get(x,0))
     if (p,x) in NOTES: meta['note']=NOTES[(p,x)]
     json.dump(meta,open(d+'/meta.json','w'),indent=1,ensure_ascii=False)
 rows=[]
